@@ -30,6 +30,7 @@ type Env struct {
 	useCells  bool // resolve parameters/locals through their current cells (loop invariants)
 	ghostOnly bool
 	inOld     bool
+	cur       *State // inside old(): the state local variables are read from
 }
 
 func (e *Env) with(name string, v Val) *Env {
@@ -562,8 +563,12 @@ func (e *Env) ident(id *ast.Ident, hint types.Type) Val {
 		}
 		if e.x != nil {
 			if a, ok := e.x.allocByPos[obj.Pos()]; ok {
-				if !a.Heap {
-					if v, ok := e.st.cells[e.x.cellKey(a)]; ok && v.S != "" {
+				lst := e.st
+				if e.inOld && e.cur != nil {
+					lst = e.cur // locals other than parameters have no "old" value: use the current one
+				}
+				if !a.Heap || privateAlloc(a) {
+					if v, ok := lst.cells[e.x.cellKey(a)]; ok && v.S != "" {
 						return Val{T: obj.Type(), S: v.S}
 					}
 				} else if pv, ok := e.x.vals[a]; ok {
@@ -768,6 +773,9 @@ func (e *Env) callExpr(ex *ast.CallExpr, hint types.Type) Val {
 			return n.eval(ex.Args[0], hint)
 		case "old":
 			n := *e
+			if n.cur == nil {
+				n.cur = e.st
+			}
 			n.st = e.old
 			n.inOld = true
 			n.useCells = false
